@@ -386,6 +386,22 @@ split_first = z3.Function('split_first', S, S, S)
 def str_method(ip: Interp, obj: SV, name: str, args, kw) -> SV:
     s = obj.e
     st = ip.st
+    # a method of a literal string applied to literal arguments is evaluated by CPython itself
+    cs = z3.simplify(s)
+    if z3.is_string_value(cs) and name in ('upper', 'lower', 'strip', 'rstrip', 'lstrip', 'isspace',
+                                           'startswith', 'endswith', 'replace', 'split') and not kw:
+        cargs = []
+        for a in args:
+            ca = z3.simplify(a.e) if a.k == 'str' else None
+            if ca is None or not z3.is_string_value(ca):
+                cargs = None
+                break
+            cargs.append(ca.as_string())
+        if cargs is not None:
+            r = getattr(cs.as_string(), name)(*cargs)
+            if isinstance(r, list):
+                return SV('pylist', py=PyList([('item', mk_str(x)) for x in r], T=('list', ('str',))))
+            return ip.lift(r)
     if name == 'join':
         return ip.join(s, args[0])
     if name == 'replace':
